@@ -146,9 +146,14 @@ func checkCrash(cs *c14Case, o *pt.Obs) error { return runCrash(cs, o, nil) }
 
 type crashPoint struct {
 	label string
+	kind  string // which hit: first | mid | last | k<n>
 	k     int64
 }
 
+// selectPoints lists the (point, hit) pairs of one history. Which hits of a point are taken is named by a
+// kind (first / middle / last hit, thorough: hits 2..12 too); the hit counts come from this process' record
+// run and may differ a little between runs (map iteration order inside the pass), the (label, kind) pairs
+// do not: they are what is dealt to the shards.
 func selectPoints(hits map[string]int64) []crashPoint {
 	labels := make([]string, 0, len(hits))
 	for l := range hits {
@@ -162,19 +167,19 @@ func selectPoints(hits map[string]int64) []crashPoint {
 		if c < 1 || !strings.HasPrefix(l, only) {
 			continue
 		}
-		ks := map[int64]bool{1: true, c: true, (1 + c) / 2: true}
+		out = append(out, crashPoint{l, "first", 1})
+		if c > 1 {
+			out = append(out, crashPoint{l, "last", c})
+		}
+		if c > 2 {
+			out = append(out, crashPoint{l, "mid", (1 + c) / 2})
+		}
 		if pt.Thorough() {
-			for k := int64(1); k <= c && k <= 12; k++ {
-				ks[k] = true
+			for k := int64(2); k < c && k <= 12; k++ {
+				if k != (1+c)/2 {
+					out = append(out, crashPoint{l, fmt.Sprintf("k%d", k), k})
+				}
 			}
-		}
-		var kl []int64
-		for k := range ks {
-			kl = append(kl, k)
-		}
-		sort.Slice(kl, func(a, b int) bool { return kl[a] < kl[b] })
-		for _, k := range kl {
-			out = append(out, crashPoint{l, k})
 		}
 	}
 	return out
@@ -202,6 +207,7 @@ func TestC14Crash(t *testing.T) {
 				cs := *hist
 				cs.CrashLabel, cs.CrashK = p.label, p.k
 				emitted++
+				t.Logf("case %d: history %d, crash at %s hit %d", emitted, histNo, p.label, p.k)
 				return &cs, true
 			}
 			if histNo >= 400 {
@@ -225,14 +231,17 @@ func TestC14Crash(t *testing.T) {
 				continue
 			}
 			all := selectPoints(hits)
+			// a (label, kind) pair belongs to the shard its hash names, and is run in hash order
 			key := func(p crashPoint) string {
-				h := sha256.Sum256([]byte(fmt.Sprintf("%d/%d/%s/%d", seed, histNo, p.label, p.k)))
+				h := sha256.Sum256([]byte(fmt.Sprintf("%d/%d/%s/%s", seed, histNo, p.label, p.kind)))
 				return string(h[:8])
 			}
 			sort.SliceStable(all, func(a, b int) bool { return key(all[a]) < key(all[b]) })
 			points = points[:0]
-			for j, p := range all {
-				if j%shards == shard {
+			for _, p := range all {
+				k := key(p)
+				owner := (int(k[0])<<8 | int(k[1])) % shards
+				if owner == shard {
 					points = append(points, p)
 				}
 			}
